@@ -39,8 +39,9 @@ SafeStyles(n) == (IF BareOK(n) THEN {"bare"} ELSE {})
                  \cup {s \in {"sq", "dq"} : PlainOK(n, s)}
 
 (* ---- deviations (open known findings): enabling conditions ---------------------------------- *)
-\* k: how many characters of the name were typed after the opening quote; ca: the closing quote is
-\* already in the line after the cursor (what editors with auto-pairing produce)
+\* k: how many characters of the name were typed after the opening quote; ca: "after" - the closing
+\* quote is already in the line after the cursor (what editors with auto-pairing produce), "closed" -
+\* the user typed the closing quote and the cursor is right after it, "no" - neither
 DevEnabled(d, n, o, k, ca) ==
   CASE d = "Dev_TrailingSpaceStripped" -> EndsWith(n, "sp")
     [] d = "Dev_TrailingBackslash"     -> EndsWith(n, "bs")
@@ -59,7 +60,7 @@ DevEnabled(d, n, o, k, ca) ==
     [] d = "Dev_BangUnquoted"          -> Has(n, "bang") /\ o \in {"none", "sq", "dq"}
     [] d = "Dev_MixedQuotesRaw"        -> Has(n, "sq") /\ Has(n, "dq") /\ (Has(n, "dl") \/ Has(n, "bs"))
     [] d = "Dev_ControlWithDollar"     -> HasAny(n, Ctrl) /\ Has(n, "dl") /\ o \in {"none", "sq", "dq"}
-    [] d = "Dev_EmptyQuotesNotContinued" -> ca /\ k = 0 /\ o # "none"
+    [] d = "Dev_EmptyQuotesNotContinued" -> ca = "after" /\ k = 0 /\ o # "none"
     [] OTHER -> FALSE
 
 Names == UNION {[1..k -> Alphabet] : k \in 1..MaxLen}
@@ -67,12 +68,12 @@ Names == UNION {[1..k -> Alphabet] : k \in 1..MaxLen}
 Init == name = <<>> /\ open = "none" /\ res = [ok |-> TRUE, dev |-> ""]
 
 Complete(n, o, k, ca) ==
-  /\ name = <<>> /\ Len(n) >= 1 /\ o \in Opens /\ k \in 0..Len(n) /\ ca \in BOOLEAN /\ (ca => o # "none")
+  /\ name = <<>> /\ Len(n) >= 1 /\ o \in Opens /\ k \in 0..Len(n) /\ ca \in {"no", "after", "closed"} /\ (ca # "no" => o # "none")
   /\ name' = n /\ open' = o
   /\ \/ res' = [ok |-> TRUE, dev |-> ""]
      \/ \E d \in Deviations : DevEnabled(d, n, o, k, ca) /\ res' = [ok |-> FALSE, dev |-> d]
 
-Next == name = <<>> /\ \E n \in Names, o \in Opens, k \in 0..1, ca \in BOOLEAN : Complete(n, o, k, ca)
+Next == name = <<>> /\ \E n \in Names, o \in Opens, k \in 0..1, ca \in {"no", "after", "closed"} : Complete(n, o, k, ca)
 Spec == Init /\ [][Next]_vars
 
 (* ---- properties -------------------------------------------------------------------------- *)
